@@ -58,6 +58,14 @@ package segreader
 //@   note only the frame is claimed; that a decompressed block starts with a whole record header is an UNCHECKED site assumption (the chunk passed its CRC, so these are the bytes the writer produced)
 //@   site call sfr.getCurrentRecordLength #1:
 //@     assume len(sfr.currRawBlockBuffer) > 3
+// C18 (damage in one segment does not affect results from others): the pooled
+// block buffer goes back to the pool only when the reader stops referring to
+// it, i.e. on the path that installs the decoder's own (larger) buffer.  On a
+// failed decode the reader keeps currRawBlockBuffer, so releasing it there
+// would hand the same memory to the next reader of ANY segment while this one
+// still writes into it.
+//@   site call PutBufToPool #1:
+//@     assert [pooled-buffer-released-only-after-a-successful-decode] err == nil
 //@ end
 
 //@ func (*SegmentFileReader).ReadDictEnc
